@@ -1,5 +1,6 @@
 import Ucfg.Lemmas.Forest
 import Ucfg.Lemmas.ForestMerge
+import Ucfg.Props.C10
 /-!
   C11 — reads are pure.
 
@@ -29,6 +30,19 @@ theorem whole_merge_only_reads_source (S : Id → Prop) (n cf : Nat) (pol : ArrP
     (hS : ∀ i : Nat, S i → i < h.length) (hsep : Sep S h) (hto : ¬ S to)
     (he : mergeH n cf pol h to frm = some h') : ∀ i, S i → h'[i]? = h[i]? :=
   ((mclaims S h.length hS n).mh cf pol h h' to frm (Nat.le_refl _) hsep hto he).2.1.1
+
+/-- NewFrom of a value that embeds configs reads them: every node that existed is identical afterwards (C10's
+`newFrom_leaves_everything_untouched`, restated here for the readers' side) -/
+theorem newFrom_only_reads_embedded (n cf : Nat) (pol : ArrPol) (h h' : Heap) (src : Src) (root : Id)
+    (he : newFromH n cf pol h src = some (h', root)) : ∀ (i : Nat) (nd : Node), h[i]? = some nd → h'[i]? = some nd := by
+  intro i nd hi
+  have hlt : i < h.length := by
+    apply Nat.lt_of_not_le
+    intro hle
+    rw [List.getElem?_eq_none hle] at hi
+    cases hi
+  rw [← hi]
+  exact Ucfg.C10.newFrom_leaves_everything_untouched n cf pol h h' src root he i hlt
 
 end Ucfg.C11
 
